@@ -180,7 +180,7 @@ def run_instance(prop, name, P, tier, seed, budget):
                                   "unknown_reasons")})
     out["stubs"] = list(stubs.STUBS_IN_FORCE)
     out["plugin_stats"] = {"bitops": dict(stubs.bitops.STATS), "arith": dict(stubs.arith.STATS), "fmtint": dict(stubs.fmtint.STATS), "fpexact": dict(stubs.fpexact.STATS),
-                           "seqwindow": dict(stubs.seqwindow.STATS)}
+                           "seqwindow": dict(stubs.seqwindow.STATS), "strcmp": dict(stubs.strcmp.STATS)}
     out["excluded_regions"] = regions
     # --- verdict
     if res.refuted:
